@@ -162,6 +162,7 @@ type ent struct {
 }
 
 type msgRec struct {
+	at     int // logical time of the send
 	full   bool
 	ents   []ent
 	failed bool
@@ -185,6 +186,7 @@ type exec struct {
 	dump     string
 	resolved string
 	elapsed  time.Duration // virtual time when the queue was found idle
+	tracked  cstate        // the wants the queue itself tracks at the end (labelling only)
 }
 
 func (x *exec) tick() int { x.clock++; return x.clock }
@@ -225,7 +227,7 @@ func (s *fakeSender) SendMsg(_ context.Context, m bsmsg.BitSwapMessage) error {
 		x.ev("SendMsg FAILED %s", rec)
 		return errors.New("injected send failure")
 	}
-	x.tick()
+	rec.at = x.tick()
 	x.msgs = append(x.msgs, rec)
 	x.ev("SendMsg #%d %s", len(x.msgs), rec)
 	return nil
@@ -366,6 +368,10 @@ func (x *exec) Main() {
 			vsched.Sleep(25 * time.Millisecond)
 		}
 		x.dump = mq.VerifDump(cids)
+		tp, tb := mq.VerifTracked(cids)
+		for c := 0; c < nCids; c++ {
+			x.tracked.peer[c], x.tracked.bcst[c] = tp[c], tb[c]
+		}
 		x.ev("queue idle: %s", x.dump)
 		x.finished = true
 		x.elapsed = vsched.Now().Sub(time.Unix(1_700_000_000, 0))
@@ -605,6 +611,12 @@ func (x *exec) features(d cdiff, res *vsched.Result) []string {
 		}
 	}
 	last := "none" // the last successfully sent message entry that mentions the CID
+	lastAt, cancelAt := -1, -1
+	for _, a := range x.calls {
+		if (a.o.K == "CA" || a.o.K == "C2") && touches(a.o, d.c) && a.start > cancelAt {
+			cancelAt = a.start
+		}
+	}
 	for _, m := range x.msgs {
 		if m.failed {
 			continue
@@ -613,6 +625,7 @@ func (x *exec) features(d cdiff, res *vsched.Result) []string {
 			if e.c != d.c {
 				continue
 			}
+			lastAt = m.at
 			switch {
 			case e.cancel:
 				last = "cancel"
@@ -626,6 +639,7 @@ func (x *exec) features(d cdiff, res *vsched.Result) []string {
 	return []string{
 		"diff", d.kind,
 		"last_message_for_cid", last,
+		"last_message_after_last_cancel_call", fmt.Sprint(cancelAt >= 0 && lastAt > cancelAt),
 		"want_not_before_cancel_same_cid", fmt.Sprint(rewant),
 		"rebroadcast", fmt.Sprint(rebro),
 		"cid_in_peer_and_broadcast_lists", fmt.Sprint(peerL && bcstL),
@@ -652,8 +666,9 @@ func (x *exec) Check(res *vsched.Result) *eng.Violation {
 			return nil
 		}
 	}
-	// No admissible linearisation agrees. Classify against the linearisation in return order (always
-	// admissible; the calls return right after their single critical section, so it is the likeliest real order).
+	// No admissible linearisation agrees. Label the history against the linearisation the queue really
+	// took (each call is one critical section: the admissible final state equal to the queue's own
+	// bookkeeping), else against the one in return order.
 	var cs []call
 	for _, c := range x.calls {
 		if c.o.model() {
@@ -664,6 +679,11 @@ func (x *exec) Check(res *vsched.Result) *eng.Violation {
 	var ro cstate
 	for _, c := range cs {
 		ro.apply(c.o)
+	}
+	for _, st := range fin {
+		if st == x.tracked {
+			ro = st
+		}
 	}
 	bestD, bestT := diff(ro.expected(x.sc.have), recv)
 	if len(bestD) == 0 {
